@@ -70,13 +70,24 @@ def node_ref(e):
     return fam, flat
 
 
-def spin_guards(fn, target):
+def spin_variables(fn):
+    """names bound to the second component of a loop over itertools.product(<range>, (0, 1))"""
+    out = set()
+    for n in ast.walk(fn):
+        if isinstance(n, ast.For) and isinstance(n.target, ast.Tuple) and len(n.target.elts) == 2 and \
+                isinstance(n.iter, ast.Call) and norm(n.iter.func) == 'itertools.product' and len(n.iter.args) == 2 and \
+                norm(n.iter.args[1]) == '(0, 1)' and isinstance(n.target.elts[1], ast.Name):
+            out.add(n.target.elts[1].id)
+    return out
+
+
+def spin_guards(fn, target, spins=frozenset({'sigma', 'tau'})):
     """conditions in spin variables only that hold at `target` (tests of enclosing ifs, asserts in the same block)"""
     conds = []
 
     def spin_only(t):
         names = {n.id for n in ast.walk(t) if isinstance(n, ast.Name)}
-        return bool(names) and names <= {'sigma', 'tau', 'mu', 'nu'}
+        return bool(names) and names <= set(spins)
 
     def walk(stmts, acc):
         for s in stmts:
@@ -152,6 +163,7 @@ def rule_R6(chk, repo):
         ci = repo.cls(cname)
         fq = family_qnums(ci.methods['__init__'].node)
         gg = ci.methods['generate_graph']
+        spins = spin_variables(gg.node)
         for call in ast.walk(gg.node):
             if not (isinstance(call, ast.Call) and norm(call.func) == 'OpGraphEdge' and len(call.args) >= 3):
                 continue
@@ -166,8 +178,11 @@ def rule_R6(chk, repo):
                 raise AnalysisError(f'{cname}.generate_graph: operator list `{norm(ops)[:60]}` not recognised')
             oid_expr = ops.elts[0].elts[0]
             # spin variables in scope
-            spin_vars = sorted({x.id for x in ast.walk(call) if isinstance(x, ast.Name) and x.id in ('sigma', 'tau')})
-            guards = spin_guards(gg.node, call)
+            spin_vars = sorted({x.id for x in ast.walk(call) if isinstance(x, ast.Name) and x.id in spins})
+            # an operator selected through a local name (`oid`) may depend on spin variables not visible in the call
+            if any(isinstance(x, ast.Name) and x.id not in spins for x in ast.walk(ops)):
+                spin_vars = sorted(spins)
+            guards = spin_guards(gg.node, call, spins)
             # local definitions of `oid` by spin-only branches are handled by evaluating the defining branch
             ok_all = True
             detail = ''
